@@ -48,11 +48,19 @@ func (c *Catalog) tagNames(d directive.Directive, id InteractionID) ([]TagName, 
 
 // tags return tag names for directives HTTP request method or JSON-RPC method.
 func (c *Catalog) tags(d directive.Directive, id InteractionID) ([]*Tag, *jerr.JApiError) {
-	if td := getChildrenTagsDirective(d); td != nil { // child directive Tags for HTTP or JSON-RPC methods
+	td, je := getChildrenTagsDirective(d) // child directive Tags for HTTP or JSON-RPC methods
+	if je != nil {
+		return nil, je
+	}
+	if td != nil {
 		return c.tagsFromTagsDirective(td)
 	}
 
-	if td := getParentTagsDirective(d); td != nil { // parent URL
+	td, je = getParentTagsDirective(d) // parent URL
+	if je != nil {
+		return nil, je
+	}
+	if td != nil {
 		return c.tagsFromTagsDirective(td)
 	}
 
@@ -72,20 +80,27 @@ func (c *Catalog) pathTag(r InteractionID) *Tag {
 	return t
 }
 
-func getChildrenTagsDirective(d directive.Directive) *directive.Directive {
+// getChildrenTagsDirective returns the Tags directive among the children of d.
+// A second Tags directive under the same parent is an error: it would be
+// ignored silently, together with any undefined tag it names.
+func getChildrenTagsDirective(d directive.Directive) (*directive.Directive, *jerr.JApiError) {
+	var td *directive.Directive
 	for _, dd := range d.Children {
 		if dd.Type() == directive.Tags {
-			return dd
+			if td != nil {
+				return nil, dd.KeywordError(jerr.NotUniqueDirective)
+			}
+			td = dd
 		}
 	}
-	return nil
+	return td, nil
 }
 
-func getParentTagsDirective(d directive.Directive) *directive.Directive {
+func getParentTagsDirective(d directive.Directive) (*directive.Directive, *jerr.JApiError) {
 	if d.Parent != nil && d.Parent.Type() == directive.URL {
 		return getChildrenTagsDirective(*d.Parent)
 	}
-	return nil
+	return nil, nil
 }
 
 func (c *Catalog) tagsFromTagsDirective(d *directive.Directive) ([]*Tag, *jerr.JApiError) {
